@@ -12,6 +12,7 @@ import (
 	"bufio"
 	"bytes"
 	"context"
+	"database/sql"
 	"encoding/json"
 	"fmt"
 	"io"
@@ -41,6 +42,7 @@ type step struct {
 }
 type phase struct {
 	Hold bool   `json:"hold"`
+	Bump bool   `json:"bump"`
 	Ops  []step `json:"ops"`
 }
 type round struct {
@@ -57,6 +59,13 @@ type round struct {
 // was recorded), only the coverage of check-then-act windows does.
 type gate struct {
 	armed   atomic.Bool
+	// bump: at the next compare-and-swap of an object row (objrepo.cas hook point) a competing
+	// metadata-only writer is simulated inside the window between the call's read and its CAS:
+	// the row's optimistic lock version is incremented through the same SQL transaction, which is
+	// what a PutObjectTagging committed by another connection does on a database with
+	// finer-grained isolation than SQLite's single writer (PostgreSQL READ COMMITTED).
+	bumpArmed atomic.Bool
+	bumped    atomic.Bool
 	parked  chan struct{}
 	release chan struct{}
 }
@@ -67,6 +76,16 @@ func (g *gate) arm() {
 }
 
 func (g *gate) handler(point string, fault bool, kv []any) error {
+	if point == "objrepo.cas" && len(kv) == 2 && g.bumpArmed.CompareAndSwap(true, false) {
+		if tx, ok := kv[0].(*sql.Tx); ok {
+			if _, err := tx.Exec("UPDATE objects SET optimistic_lock_version = optimistic_lock_version + 1 WHERE id = ?", kv[1]); err != nil {
+				fmt.Fprintln(os.Stderr, "condwrite: bump failed:", err)
+				os.Exit(3)
+			}
+			g.bumped.Store(true)
+		}
+		return nil
+	}
 	if point != "tx.sqlcommit" || len(kv) == 0 {
 		return nil
 	}
@@ -223,7 +242,7 @@ func main() {
 					known[c] = res["etag"].(string)
 					kmu.Unlock()
 				}
-				w.Emit(map[string]any{"t": "ret", "c": c, "res": res})
+				w.Emit(map[string]any{"t": "ret", "c": c, "res": res, "bumped": g.bumped.Swap(false)})
 			}
 		}
 		for _, ph := range phases {
@@ -262,6 +281,18 @@ func main() {
 				g.armed.Store(false)
 				close(g.release)
 				wg.Wait()
+				continue
+			}
+			if ph.Bump {
+				// one call at a time, each with the interference armed
+				for _, c := range order {
+					for _, o := range scripts[c] {
+						g.bumped.Store(false)
+						g.bumpArmed.Store(true)
+						runScript(c, []op{o})
+						g.bumpArmed.Store(false)
+					}
+				}
 				continue
 			}
 			start := make(chan struct{})
